@@ -10,8 +10,15 @@
 (*       mechs offered (for choose), tok (a token was returned).           *)
 (*     The driver logs exactly this per step.                              *)
 (* L1  the property over the history of ONE auth session (since the last   *)
-(*     Init): H = [has, ended, acc] -- session exists, a step was denied   *)
-(*     or succeeded, sequence of accepted (non-error) steps.               *)
+(*     Init): H = [has, ended, acc, off] -- session exists, a step was     *)
+(*     denied or succeeded, sequence of accepted (non-error) steps,        *)
+(*     mechanisms the Init answer offered.  A step is DENIED when the      *)
+(*     server answers Denied, and also when a mechanism choice (Begin in   *)
+(*     the choosing phase) names a mechanism that was not offered: that    *)
+(*     choice can only be refused, whatever the transport answer is (the   *)
+(*     server answers it with an error).  Requests that are merely out of  *)
+(*     phase (Cred before Begin, Begin while in progress) are errors       *)
+(*     without effect, not denials.                                        *)
 (* L2  transcription of AuthSession::new / start_session / validate_creds, *)
 (*     CredHandler::validate_* (authsession/mod.rs) and of the soft-lock   *)
 (*     consultation in IdmServerAuthTransaction::auth (server.rs).         *)
@@ -19,7 +26,7 @@
 EXTENDS Integers, Sequences, FiniteSets
 
 Cfgs  == {"none", "pw", "pwtotp", "pwtotpbackup", "anon"}
-Mechs == {"anonymous", "password", "passwordtotp", "passwordbackupcode", "passkey"}
+Mechs == {"anonymous", "password", "passwordtotp", "passwordbackupcode", "passwordsecuritykey", "passkey", "oauth2trust"}
 Creds == {"pw_ok", "pw_bad", "totp_cur", "totp_prev", "totp_stale", "backup_ok", "backup_bad", "anon"}
 
 Valid(w, advanced) == w = "in" \/ (w = "expiring" /\ ~advanced) \/ (w = "starting" /\ advanced)
@@ -39,7 +46,9 @@ MechsOf(cfg) == CASE cfg = "pw"           -> {"password"}
                   [] OTHER                -> {}
 
 \* ----------------------------- L1 ---------------------------------------
-H0 == [has |-> FALSE, ended |-> FALSE, acc |-> <<>>]
+H0 == [has |-> FALSE, ended |-> FALSE, acc |-> <<>>, off |-> {}]
+\* a mechanism choice that cannot be granted: Begin, in the choosing phase, of a mechanism not offered
+RefusedChoice(H, step) == step.a = "begin" /\ H.has /\ ~H.ended /\ H.acc = <<>> /\ step.x \notin H.off
 Complete(cfg, acc) ==
   /\ Len(acc) >= 2
   /\ acc[1].a = "begin" /\ acc[1].x \in MechsOf(cfg)
@@ -55,13 +64,15 @@ L1Step(cfg, w, advanced, H, step, res, mechs, tok) ==
         /\ Complete(cfg, Append(H.acc, step))                            \* every factor, in order, this session
   /\ (step.a = "init" /\ res = "choose" /\ SecondFactor(cfg)) => "password" \notin mechs
   /\ (step.a = "begin" /\ step.x = "password" /\ SecondFactor(cfg)) => res # "continue"
+  /\ RefusedChoice(H, step) => res \in {"err", "denied"}                   \* only offered mechanisms begin
   /\ (step.a # "init" /\ H.ended) => res \in {"err", "denied"}            \* denial / success is final
   /\ (step.a # "init" /\ ~H.has) => res \in {"err", "denied"}             \* nothing without a session
 
-HNext(H, step, res) ==
-  IF step.a = "init" THEN [has |-> res = "choose", ended |-> FALSE, acc |-> <<>>]
+HNext(H, step, res, mechs) ==
+  IF step.a = "init" THEN [has |-> res = "choose", ended |-> FALSE, acc |-> <<>>, off |-> IF res = "choose" THEN mechs ELSE {}]
   ELSE IF res = "continue" THEN [H EXCEPT !.acc = Append(@, step)]
   ELSE IF res \in {"denied", "success"} THEN [H EXCEPT !.ended = TRUE]
+  ELSE IF RefusedChoice(H, step) THEN [H EXCEPT !.ended = TRUE]          \* a refused choice is a denied step
   ELSE H
 
 \* ----------------------------- L2 ---------------------------------------
